@@ -594,6 +594,21 @@ def _mask_zero(v):
         return "d:0000000000000000"
     return v
 
+def _mixed_zero_runs(vals):
+    """[(start, end)] of the maximal runs of five or more consecutive floating-point zeroes of one type
+    that hold both signs"""
+    runs = []
+    for zs in (("f:00000000", "f:80000000"), ("d:0000000000000000", "d:8000000000000000")):
+        j = 0
+        while j < len(vals):
+            k = j
+            while k < len(vals) and vals[k] in zs:
+                k += 1
+            if k - j >= 5 and len(set(vals[j:k])) == 2:
+                runs.append((j, k))
+            j = max(k, j + 1)
+    return runs
+
 def _mixed_zero_run(vals):
     """five or more consecutive floating-point zeroes of one type, of both signs"""
     for zs in (("f:00000000", "f:80000000"), ("d:0000000000000000", "d:8000000000000000")):
@@ -702,10 +717,18 @@ def classify(case, impl, failure):
     vals = f[5].split(";")
     d = fields(impl) if "=" in impl else {}
     if f[3] != "0" and failure.startswith("values: ") and "scanned as" in failure and _mixed_zero_run(vals):
-        # signed-zero-run: a run of >= 5 zeroes of both signs; the scanned values differ from the
-        # originals in the sign of zeroes only, and rtosc_arg_vals_eq (==) holds
+        # signed-zero-run: a run of >= 5 zeroes of both signs is printed "Nx<first zero>" and scanned as
+        # R:n:0 <first zero>.  Demanded: rtosc_arg_vals_eq (==) holds, every such run is scanned in that
+        # form, and the scanned values are the originals with the zeroes INSIDE those runs (no other
+        # value, no other zero) replaced by the run's first element
         got = [] if d.get("V", "-") == "-" else d["V"].split(";")
-        if d.get("EQ") == "1" and [_mask_zero(v) for v in expand(got)] == [_mask_zero(v) for v in expand(vals)]:
+        runs = _mixed_zero_runs(vals)
+        as_scanned = list(vals)
+        for j, k in runs:
+            as_scanned[j:k] = [vals[j]] * (k - j)
+        forms = all(any(got[i] == "R:%d:0" % (k - j) and got[i + 1] == vals[j] for i in range(len(got) - 1))
+                    for j, k in runs)
+        if d.get("EQ") == "1" and runs and forms and expand(got) == expand(as_scanned):
             return "signed-zero-run"
     if f[3] != "0" and failure.startswith("check: ") and "P" in d and d["P"] != "-":
         # ellipsis-in-string-before-range: a string or symbol containing "..." directly in front of a
